@@ -849,6 +849,43 @@ class Unit:
         self.dropped_hints = []      # (function, directive) of proof hints whose anchor was not found
 
     def rf(self, rel):
+        if rel not in self.files and "#quote:" in rel:
+            # R28: code inside the N-th `quote! { .. }` group of a proc-macro function (the text every derive expansion is
+            # made of).  The group's tokens are scanned as items; line numbers are those of the file.  The interpolation
+            # holes (`#ident`, `#message_id`) stay in the text and are replaced by //@sub / //@sigsub rules of the unit.
+            base, spec = rel.split("#quote:", 1)
+            parts = spec.split(":")
+            fnname, nth = parts[0], int(parts[1]) if len(parts) > 1 else 1
+            bf = self.rf(base)
+            its = bf.find_fn("-", fnname)
+            if len(its) != 1:
+                raise ExtractError("anchor lost: macro function %s in %s found %d times" % (fnname, base, len(its)))
+            k, j, e = its[0].toks_range
+            groups = []
+            x = j + 1
+            while x < e:
+                t = bf.toks[x]
+                if t.kind == "ident" and t.text == "quote":
+                    y = x + 1
+                    while y < e and bf.toks[y].kind in ("ws", "comment"):
+                        y += 1
+                    if y < e and bf.toks[y].kind == "punct" and bf.toks[y].text == "!":
+                        y += 1
+                        while y < e and bf.toks[y].kind in ("ws", "comment"):
+                            y += 1
+                        if y < e and bf.toks[y].kind == "punct" and bf.toks[y].text == "{":
+                            c = match_close(bf.toks, y)
+                            groups.append((y, c))
+                            x = c + 1
+                            continue
+                x += 1
+            if len(groups) < nth:
+                raise ExtractError("anchor lost: %s has %d quote! groups, the unit names #%d" % (fnname, len(groups), nth))
+            y, c = groups[nth - 1]
+            start, end = bf.toks[y].end, bf.toks[c].start
+            pad = "\n" * (bf.line_of(start) - 1)
+            self.files[rel] = RustFile(os.path.join(self.repo, base), src=pad + bf.src[start:end])
+            return self.files[rel]
         if rel not in self.files:
             p = os.path.join(self.repo, rel)
             if not os.path.exists(p):
@@ -1314,21 +1351,35 @@ class Unit:
                     inserts.append((toks[in_tok].end, " %s:" % lp["iter"]))
                 inserts.append((toks[j].start, [(l, ("template",) + o) for l, o in lp["lines"]]))
             rw.count("R8 loop annotations", len(loops))
+        # a hint that carries a property tag is an OBLIGATION (a tagged assert at a program point), not a proof aid:
+        # it is never left out -- a lost anchor or a compile error there makes the unit undecided
+        def is_obligation(pr):
+            return any(re.search(r"//\[C\d\d", l) for l, _ in pr["lines"])
+        if name in getattr(self, "skip_hint_fns", set()) and proofs:
+            soft = [pr for pr in proofs if not is_obligation(pr)]
+            for pr in soft:
+                self.dropped_hints.append((name, "//@proof %s /%s/ left out (did not compile in this shape)" % (pr["where"], pr["re"])))
+            rw.count("proof hint left out (did not compile)", len(soft))
+            proofs = [pr for pr in proofs if is_obligation(pr)]
         for pr in proofs:
-            plines = [(l, ("template",) + o) for l, o in pr["lines"]]
+            plines = [(l, ("hint",) + o) for l, o in pr["lines"]]
             if pr["where"] == "start":
                 inserts.append((1, plines))
                 continue
             ms = list(re.finditer(relax(pr["re"]), body, re.M))
             if pr.get("nth"):
                 if len(ms) < pr["nth"]:
-                    # a proof hint whose anchor is gone is left out (hints only ADD checked facts, so this can only make the
+                    if is_obligation(pr):
+                        raise ExtractError("anchor of a tagged assertion lost: //@proof /%s/ #%d matched %d times" % (pr["re"], pr["nth"], len(ms)))
+                    # an untagged proof hint whose anchor is gone is left out (such hints only ADD checked facts, so this can only make the
                     # proof harder, never unsound); if the function then fails, the driver reports UNDECIDED, not a violation
                     self.dropped_hints.append((name, "//@proof /%s/ #%d matched %d times" % (pr["re"], pr["nth"], len(ms))))
                     rw.count("proof hint left out (anchor lost)")
                     continue
                 mm = ms[pr["nth"] - 1]
             elif len(ms) != 1:
+                if is_obligation(pr):
+                    raise ExtractError("anchor of a tagged assertion lost: //@proof /%s/ matched %d times" % (pr["re"], len(ms)))
                 self.dropped_hints.append((name, "//@proof /%s/ matched %d times" % (pr["re"], len(ms))))
                 rw.count("proof hint left out (anchor lost)")
                 continue
